@@ -4,7 +4,7 @@
    known q h = bits [0,8q] and [57,63] of h = what a bucket keeps next to an element of class q. *)
 From Coq Require Import ZArith List.
 From MomoCommon Require Import GenPrelude.
-From C12 Require Gen_Base Gen_O2 Gen_O2MP Gen_P4 Gen_One Known P4_Model P4_Slot P4_Bucket O2_Slot Chain O2_Bucket MP_Open2N2 TableO2 TableO2_Proofs TableP4 TableP4_Proofs TableOne TableOne_Proofs Refuted TableO2_Find SameCode Gen_O2set TableP4_Find Gen_P4A P4A_Refine Gen_P4A16 P4A_Refine16 Chains PtrState Gen_Ptr32 Gen_Ptr48 Gen_Ptr64 GensFind Gen_HSFind Gen_HSFindIn HSFind_Refine.
+From C12 Require Gen_Base Gen_O2 Gen_O2MP Gen_P4 Gen_One Known P4_Model P4_Slot P4_Bucket O2_Slot Chain O2_Bucket MP_Open2N2 TableO2 TableO2_Proofs TableP4 TableP4_Proofs TableOne TableOne_Proofs Refuted TableO2_Find SameCode Gen_O2set TableP4_Find Gen_P4A P4A_Refine Gen_P4A16 P4A_Refine16 Chains PtrState Gen_Ptr32 Gen_Ptr48 Gen_Ptr64 GensFind Gen_HSFind Gen_HSFindIn HSFind_Refine Gen_HSAdd Gen_HSReloc HSReloc_Refine Establish.
 Import ListNotations.
 Local Open Scope Z_scope.
 
@@ -925,95 +925,295 @@ Theorem C12_open2n2_find_after_throwing_migration :
 Proof. exact GensFind.migrate_gens_find. Qed.
 Print Assumptions C12_open2n2_find_after_throwing_migration.
 
-(* HashSet::pvFind(key) GENERATED (Gen_HSFind.pvFindKey, HashSet.h:1043-1064): its walk over the chained bucket generations --
-   per-generation search, `break` on a non-null iterator, `buckets = buckets->GetNextBuckets()`, `break` at nullptr -- equals the
-   hand-written walk, for ANY per-generation search tf that is total, any iterator numbering enc with enc r = 0 only for the
-   null iterator, and up to 70 chained generations (each generation at least doubles the bucket count, so there are < 64).
-   Instantiation of the generated code's Section variables: generation i (0 = newest) lives at pointer i+1, nullptr = 0,
-   find_in = anything that agrees pointwise with enc of the per-generation search, buckets_next p = p+1 below the number of
-   generations, else 0. *)
+(* HashSet::pvFind(key) GENERATED (Gen_HSFind.pvFindKey, HashSet.h:1043-1064; result = the (indexCode, bucketIter) handed to
+   ConstPositionProxy): its walk over the chained bucket generations -- per-generation search, `break` on a non-null iterator,
+   `buckets = buckets->GetNextBuckets()`, `break` at nullptr -- equals the hand-written walk, for ANY values of the generated
+   code's Section variables (any generation pointers gptr, any find_in / buckets_next) such that the pointers are non-null and
+   chained by buckets_next (chain_ok) and find_in on generation i's pointer returns the per-generation search's
+   (iterator, indexCode) (find_in_ok); for any total per-generation search tf and up to 70 chained generations (each at least
+   doubles the bucket count, so there are < 64). *)
 Theorem C12_hashset_find_walk_generated :
-  forall (A : Type) (tf : Z -> A -> outcome (option (Z * Z))) (enc : option (Z * Z) -> Z),
-    enc None = 0 -> (forall x, enc (Some x) <> 0) ->
-  forall (gens : list A) (hash_of : Z -> Z) (find_in : Z -> Z -> Z -> Z),
-    (forall ic p pred, find_in ic p pred = HSFind_Refine.find_in_of A tf enc gens ic p pred) ->
+  forall (A : Type) (tf : Z -> A -> outcome (option (Z * Z))) (it : nat -> Z -> Z -> Z), (forall g b s, it g b s <> 0) ->
+  forall (gens : list A) (gptr : nat -> Z) (hash_of : Z -> Z) (find_in : Z -> Z -> Z -> Z * Z) (buckets_next : Z -> Z),
+    HSFind_Refine.chain_ok A gens gptr buckets_next ->
+    HSFind_Refine.find_in_ok A tf it gens gptr find_in ->
     (forall h, Forall (fun a => exists r, tf h a = Ok r) gens) ->
   forall mCount key ht pred, mCount <> 0 -> gens <> [] -> (length gens <= 70)%nat ->
-    Gen_HSFind.pvFindKey false hash_of find_in (HSFind_Refine.next_of A gens) mCount 1 key ht pred
-    = Ok (HSFind_Refine.encw enc (HSFind_Refine.walk A tf (hash_of key) gens)).
+    Gen_HSFind.pvFindKey false hash_of find_in buckets_next mCount (gptr 0%nat) key ht pred
+    = Ok (HSFind_Refine.resw it (hash_of key) (HSFind_Refine.walk A tf 0 (hash_of key) gens)).
 Proof. exact HSFind_Refine.pvFindKey_walk. Qed.
 Print Assumptions C12_hashset_find_walk_generated.
 
 (* the per-generation search, static HashSet::pvFind(indexCode, buckets, itemPred) GENERATED (Gen_HSFindIn.pvFindIn,
-   HashSet.h:1066-1095: start bucket, then `for (probe = 1; bucket->WasFull() && probe <= maxProbe; ++probe)`), equals the
-   hand-written TableP4.pfind / TableO2.find / TableOne.ofind -- same result, same Stuck/Fuel behaviour -- when its Section
-   variables are the generated bucket-level leaves over the model table (bucket pointer = bucket index, a non-null iterator is
-   `it bucket slot`, never 0).  No invariant is needed: this is an equality of programs. *)
+   HashSet.h:1066-1095: start bucket, then `for (probe = 1; bucket->WasFull() && probe <= maxProbe; ++probe)`; result =
+   (iterator, final value of the by-reference indexCode)), equals the hand-written TableP4.pfind / TableO2.find /
+   TableOne.ofind -- same hit, indexCode = the hit's bucket index (unchanged on a miss), same Stuck/Fuel behaviour -- for ANY
+   bucket-array pointer bks and ANY values of the Section variables (bucket pointers bk_at bks i, methods b_find / b_wasfull /
+   b_maxprobe / bk_count / bk_logcount) satisfying *_heap_ok: the method on the pointer of bucket i returns what the generated
+   bucket-level leaf returns on the model's bucket i.  No table invariant is needed: this is an equality of programs. *)
 Theorem C12_hashset_bucket_probing_generated_limp4 :
-  forall t L key (it : Z -> Z -> Z), (forall b s, it b s <> 0) -> forall h bks pred params,
-    HSFind_Refine.p4_findin t L key it h bks pred params =
-    match TableP4.pfind t L key h with Ok r => Ok (HSFind_Refine.encI it r) | Stuck => Stuck | Fuel => Fuel | Exn => Exn end.
+  forall t L key (itb : Z -> Z -> Z), (forall b s, itb b s <> 0) ->
+  forall bks bk_count bk_logcount b_find b_wasfull bk_at,
+    HSFind_Refine.p4_heap_ok t L key itb bks bk_count bk_logcount b_find b_wasfull bk_at ->
+  forall h pred params,
+    HSFind_Refine.p4_findin bks bk_count bk_logcount b_find b_wasfull bk_at h pred params =
+    match TableP4.pfind t L key h with Ok r => Ok (HSFind_Refine.resI itb h r) | Stuck => Stuck | Fuel => Fuel | Exn => Exn end.
 Proof. exact HSFind_Refine.p4_findin_refines. Qed.
 Print Assumptions C12_hashset_bucket_probing_generated_limp4.
 
 Theorem C12_hashset_bucket_probing_generated_open2n2 :
-  forall t L key (it : Z -> Z -> Z), (forall b s, it b s <> 0) -> forall h bks pred params,
-    HSFind_Refine.o2_findin t L key it h bks pred params =
-    match TableO2.find t L key h with Ok r => Ok (HSFind_Refine.encI it r) | Stuck => Stuck | Fuel => Fuel | Exn => Exn end.
+  forall t L key (itb : Z -> Z -> Z), (forall b s, itb b s <> 0) ->
+  forall bks bk_count bk_logcount b_find b_maxprobe b_wasfull bk_at,
+    HSFind_Refine.o2_heap_ok t L key itb bks bk_count bk_logcount b_find b_maxprobe b_wasfull bk_at ->
+  forall h pred params,
+    HSFind_Refine.o2_findin bks bk_count bk_logcount b_find b_maxprobe b_wasfull bk_at h pred params =
+    match TableO2.find t L key h with Ok r => Ok (HSFind_Refine.resI itb h r) | Stuck => Stuck | Fuel => Fuel | Exn => Exn end.
 Proof. exact HSFind_Refine.o2_findin_refines. Qed.
 Print Assumptions C12_hashset_bucket_probing_generated_open2n2.
 
 Theorem C12_hashset_bucket_probing_generated_one :
-  forall t L key (it1 : Z -> Z), (forall b, it1 b <> 0) -> forall h bks pred params,
-    HSFind_Refine.one_findin t L key it1 h bks pred params =
-    match TableOne.ofind t L key h with Ok r => Ok (HSFind_Refine.encI1 it1 r) | Stuck => Stuck | Fuel => Fuel | Exn => Exn end.
+  forall t L key (it1 : Z -> Z), (forall b, it1 b <> 0) ->
+  forall bks bk_count bk_logcount b_find b_wasfull bk_at,
+    HSFind_Refine.one_heap_ok t L key it1 bks bk_count bk_logcount b_find b_wasfull bk_at ->
+  forall h pred params,
+    HSFind_Refine.one_findin bks bk_count bk_logcount b_find b_wasfull bk_at h pred params =
+    match TableOne.ofind t L key h with Ok r => Ok (HSFind_Refine.resI1 it1 h r) | Stuck => Stuck | Fuel => Fuel | Exn => Exn end.
 Proof. exact HSFind_Refine.one_findin_refines. Qed.
 Print Assumptions C12_hashset_bucket_probing_generated_one.
 
-(* both generated functions composed (pvFind(key) calling the generated pvFind(indexCode, *buckets, pred) on the generation the
-   pointer names) = the hand-written TableP4.pfind_gens, for LimP4 generations satisfying their invariant *)
+(* both generated functions composed (pvFind(key) calling the generated pvFind(indexCode, *buckets, pred)) = the hand-written
+   TableP4.pfind_gens, for LimP4 generations satisfying their invariant, any memory layout satisfying p4_heaps_ok / chain_ok *)
 Theorem C12_hashset_find_generated_refines_limp4 :
-  forall H hash (it : Z -> Z -> Z), (forall b s, it b s <> 0) ->
-  forall key gens mCount ht pred, GensFind.pgens_inv H hash gens -> gens <> [] -> (length gens <= 70)%nat -> mCount <> 0 ->
-    Gen_HSFind.pvFindKey false hash (HSFind_Refine.p4_find_in it gens key) (HSFind_Refine.next_of _ gens) mCount 1 key ht pred
-    = Ok (HSFind_Refine.encw (HSFind_Refine.encI it) (TableP4.pfind_gens gens key (hash key))).
+  forall H hash (it : nat -> Z -> Z -> Z), (forall g b s, it g b s <> 0) ->
+  forall gptr bk_count bk_logcount b_find b_wasfull bk_at buckets_next gens key,
+    HSFind_Refine.p4_heaps_ok it gptr bk_count bk_logcount b_find b_wasfull bk_at gens key ->
+    HSFind_Refine.chain_ok _ gens gptr buckets_next ->
+  forall mCount ht pred, GensFind.pgens_inv H hash gens -> gens <> [] -> (length gens <= 70)%nat -> mCount <> 0 ->
+    Gen_HSFind.pvFindKey false hash (HSFind_Refine.p4_find_in bk_count bk_logcount b_find b_wasfull bk_at) buckets_next mCount (gptr 0%nat) key ht pred
+    = Ok (HSFind_Refine.resw it (hash key) (TableP4.pfind_gens gens key (hash key))).
 Proof. exact HSFind_Refine.hsfind_p4_refines. Qed.
 Print Assumptions C12_hashset_find_generated_refines_limp4.
 
-(* ... so the generated Find returns a non-null iterator naming a slot that holds the key, for every key stored in any generation *)
+(* ... so the generated Find returns (indexCode, iterator) = (bucket index, non-null iterator) of a slot that holds the key, for
+   every key stored in any generation *)
 Theorem C12_hashset_find_generated_finds_present_limp4 :
-  forall H hash (it : Z -> Z -> Z), (forall b s, it b s <> 0) ->
-  forall key gens mCount ht pred, GensFind.pgens_inv H hash gens -> (length gens <= 70)%nat -> mCount <> 0 ->
+  forall H hash (it : nat -> Z -> Z -> Z), (forall g b s, it g b s <> 0) ->
+  forall gptr bk_count bk_logcount b_find b_wasfull bk_at buckets_next gens key,
+    HSFind_Refine.p4_heaps_ok it gptr bk_count bk_logcount b_find b_wasfull bk_at gens key ->
+    HSFind_Refine.chain_ok _ gens gptr buckets_next ->
+  forall mCount ht pred, GensFind.pgens_inv H hash gens -> (length gens <= 70)%nat -> mCount <> 0 ->
     (exists g, In g gens /\ TableP4_Proofs.PPresent (snd g) (fst g) key) ->
     exists g b s,
-      Gen_HSFind.pvFindKey false hash (HSFind_Refine.p4_find_in it gens key) (HSFind_Refine.next_of _ gens) mCount 1 key ht pred
-      = Ok (it b s) /\ it b s <> 0 /\ GensFind.pgens_hit gens key (g, b, s).
+      Gen_HSFind.pvFindKey false hash (HSFind_Refine.p4_find_in bk_count bk_logcount b_find b_wasfull bk_at) buckets_next mCount (gptr 0%nat) key ht pred
+      = Ok (b, it g b s) /\ it g b s <> 0 /\ GensFind.pgens_hit gens key (g, b, s).
 Proof. exact HSFind_Refine.hsfind_p4_present. Qed.
 Print Assumptions C12_hashset_find_generated_finds_present_limp4.
 
 (* the same for Open2N2 tables (TableO2.find_gens) *)
 Theorem C12_hashset_find_generated_refines_open2n2 :
-  forall hash (it : Z -> Z -> Z), (forall b s, it b s <> 0) ->
-  forall key gens mCount ht pred, GensFind.gens_inv hash gens -> gens <> [] -> (length gens <= 70)%nat -> mCount <> 0 ->
-    Gen_HSFind.pvFindKey false hash (HSFind_Refine.o2_find_in it gens key) (HSFind_Refine.next_of _ gens) mCount 1 key ht pred
-    = Ok (HSFind_Refine.encw (HSFind_Refine.encI it) (TableO2.find_gens gens key (hash key))).
+  forall hash (it : nat -> Z -> Z -> Z), (forall g b s, it g b s <> 0) ->
+  forall gptr bk_count bk_logcount b_find b_maxprobe b_wasfull bk_at buckets_next gens key,
+    HSFind_Refine.o2_heaps_ok it gptr bk_count bk_logcount b_find b_maxprobe b_wasfull bk_at gens key ->
+    HSFind_Refine.chain_ok _ gens gptr buckets_next ->
+  forall mCount ht pred, GensFind.gens_inv hash gens -> gens <> [] -> (length gens <= 70)%nat -> mCount <> 0 ->
+    Gen_HSFind.pvFindKey false hash (HSFind_Refine.o2_find_in bk_count bk_logcount b_find b_maxprobe b_wasfull bk_at) buckets_next mCount (gptr 0%nat) key ht pred
+    = Ok (HSFind_Refine.resw it (hash key) (TableO2.find_gens gens key (hash key))).
 Proof. exact HSFind_Refine.hsfind_o2_refines. Qed.
 Print Assumptions C12_hashset_find_generated_refines_open2n2.
 
 Theorem C12_hashset_find_generated_finds_present_open2n2 :
-  forall hash (it : Z -> Z -> Z), (forall b s, it b s <> 0) ->
-  forall key gens mCount ht pred, GensFind.gens_inv hash gens -> (length gens <= 70)%nat -> mCount <> 0 ->
+  forall hash (it : nat -> Z -> Z -> Z), (forall g b s, it g b s <> 0) ->
+  forall gptr bk_count bk_logcount b_find b_maxprobe b_wasfull bk_at buckets_next gens key,
+    HSFind_Refine.o2_heaps_ok it gptr bk_count bk_logcount b_find b_maxprobe b_wasfull bk_at gens key ->
+    HSFind_Refine.chain_ok _ gens gptr buckets_next ->
+  forall mCount ht pred, GensFind.gens_inv hash gens -> (length gens <= 70)%nat -> mCount <> 0 ->
     (exists g, In g gens /\ TableO2_Proofs.Present (snd g) (fst g) key) ->
     exists g b s,
-      Gen_HSFind.pvFindKey false hash (HSFind_Refine.o2_find_in it gens key) (HSFind_Refine.next_of _ gens) mCount 1 key ht pred
-      = Ok (it b s) /\ it b s <> 0 /\ GensFind.gens_hit gens key (g, b, s).
+      Gen_HSFind.pvFindKey false hash (HSFind_Refine.o2_find_in bk_count bk_logcount b_find b_maxprobe b_wasfull bk_at) buckets_next mCount (gptr 0%nat) key ht pred
+      = Ok (b, it g b s) /\ it g b s <> 0 /\ GensFind.gens_hit gens key (g, b, s).
 Proof. exact HSFind_Refine.hsfind_o2_present. Qed.
 Print Assumptions C12_hashset_find_generated_finds_present_open2n2.
 
+(* the layout hypotheses are satisfiable (the theorems above are not vacuous): generation i at pointer i+1; bucket pointer = index *)
+Theorem C12_hashset_find_layout_hypotheses_satisfiable :
+  forall (A : Type) (gens : list A),
+    HSFind_Refine.chain_ok A gens (fun i => Z.of_nat i + 1) (fun p => if p <? Z.of_nat (length gens) then p + 1 else 0).
+Proof. exact HSFind_Refine.chain_ok_example. Qed.
+Print Assumptions C12_hashset_find_layout_hypotheses_satisfiable.
+
+Theorem C12_hashset_find_heap_hypotheses_satisfiable_limp4 :
+  forall t L key itb bks,
+    HSFind_Refine.p4_heap_ok t L key itb bks (fun _ => wrapU 64 (Z.shiftl 1 L)) (fun _ => L)
+      (fun b _ _ h => match TableP4.pbucket_find (t b) key h with Ok r => if r =? 0 then 0 else itb b (r - 1) | _ => 0 end)
+      (fun b => TableP4.was_full (t b)) (fun _ i => i).
+Proof. exact HSFind_Refine.p4_heap_ok_example. Qed.
+Print Assumptions C12_hashset_find_heap_hypotheses_satisfiable_limp4.
+
+Theorem C12_hashset_find_heap_hypotheses_satisfiable_open2n2 :
+  forall t L key itb bks,
+    HSFind_Refine.o2_heap_ok t L key itb bks (fun _ => wrapU 64 (Z.shiftl 1 L)) (fun _ => L)
+      (fun b _ _ h => match TableO2.bucket_find (t b) key h with Ok r => if r =? 0 then 0 else itb b (r - 1) | _ => 0 end)
+      (fun b _ => Gen_O2MP.GetMaxProbe (TableO2.bst (t b))) (fun b => Gen_O2.WasFull (TableO2.bst (t b)) (TableO2.bsh (t b)) (TableO2.bhp (t b))) (fun _ i => i).
+Proof. exact HSFind_Refine.o2_heap_ok_example. Qed.
+Print Assumptions C12_hashset_find_heap_hypotheses_satisfiable_open2n2.
+
 (* areItemsNothrowRelocatable: the generated walk stops after the newest generation (then pvRelocateItems never leaves an older one) *)
 Theorem C12_hashset_find_nothrow_relocatable_newest_only :
-  forall (A : Type) (gens : list A) (hash_of : Z -> Z) (find_in : Z -> Z -> Z -> Z) mCount key ht pred, mCount <> 0 ->
-    Gen_HSFind.pvFindKey true hash_of find_in (HSFind_Refine.next_of A gens) mCount 1 key ht pred
-    = Ok (find_in (hash_of key) 1 pred).
+  forall hash_of (find_in : Z -> Z -> Z -> Z * Z) buckets_next mBuckets mCount key ht pred, mCount <> 0 ->
+    Gen_HSFind.pvFindKey true hash_of find_in buckets_next mCount mBuckets key ht pred
+    = Ok (snd (find_in (hash_of key) mBuckets pred), fst (find_in (hash_of key) mBuckets pred)).
 Proof. exact HSFind_Refine.pvFindKey_nothrow. Qed.
 Print Assumptions C12_hashset_find_nothrow_relocatable_newest_only.
+
+(* HashSet::pvAddNogrow<false> GENERATED (Gen_HSAdd.pvAddNogrow, HashSet.h:1123-1148: start bucket, `while (bucket->IsFull())` probe
+   loop with the "Hash table is full" throw, AddCrt(.., hashCode, logCount, probe), startBucket.UpdateMaxProbe(probe); the bucket
+   array is a ghost field of abstract type threaded through the bucket methods) EQUALS the hand-written add_nogrow / padd_nogrow when
+   its Section variables are the generated bucket leaves over the model table (bucket pointer = index).  Equality of programs. *)
+Theorem C12_hashset_addnogrow_generated_open2n2 :
+  forall key L t code, HSReloc_Refine.o2_gen_add key L t code = TableO2.add_nogrow t L code key.
+Proof. exact HSReloc_Refine.o2_gen_add_eq. Qed.
+Print Assumptions C12_hashset_addnogrow_generated_open2n2.
+
+Theorem C12_hashset_addnogrow_generated_limp4 :
+  forall H key L t code, HSReloc_Refine.p4_gen_add H key L t code = TableP4.padd_nogrow H t L code key.
+Proof. exact HSReloc_Refine.p4_gen_add_eq. Qed.
+Print Assumptions C12_hashset_addnogrow_generated_limp4.
+
+(* the two loops of HashSet::pvRelocateItems(Buckets* buckets) GENERATED (Gen_HSReloc.pvRelocateItemsB, HashSet.h:1286-1312: for every
+   bucket i, `for (c = bounds.GetCount(); c > 0; --c) { --bucketIter; hashCode = bucket.GetHashCodePart(getter, bucketIter, i,
+   buckets->GetLogCount(), mBuckets->GetLogCount()); bucketIter = bucket.Remove(params, bucketIter, replacer[hashCode]); }`), with
+   Remove's replacer instantiated by the GENERATED pvAddNogrow<false> on the new table, equal the hand-written migrate_from /
+   pmigrate_from on tables satisfying their invariants (the invariant gives count' = count - 1 after each Remove, which the
+   generated counter c relies on).  world = (old table, new table). *)
+Theorem C12_hashset_relocate_loops_generated_open2n2 :
+  forall hash, (forall k, 0 <= hash k < 2 ^ 64) -> forall L newL, 0 <= L -> L < newL <= 63 ->
+  forall told tnew, TableO2_Proofs.Tinv hash L told -> TableO2_Proofs.Tinv hash newL tnew ->
+    HSReloc_Refine.o2_gen_reloc hash L newL told tnew = TableO2.migrate_from hash (Z.to_nat (2 ^ L)) told tnew L newL 0.
+Proof. exact HSReloc_Refine.o2_gen_reloc_eq. Qed.
+Print Assumptions C12_hashset_relocate_loops_generated_open2n2.
+
+Theorem C12_hashset_relocate_loops_generated_limp4 :
+  forall H mm hash, 4 <= H <= 8 -> 1 <= mm <= 4 -> (forall k, 0 <= hash k < 2 ^ 64) -> forall L newL, 0 <= L -> L < newL <= 63 ->
+  forall told tnew calls, TableP4_Proofs.PTinv H hash L told -> TableP4_Proofs.PTinv H hash newL tnew ->
+    HSReloc_Refine.p4_gen_reloc H mm hash L newL told tnew =
+    HSReloc_Refine.lift2 HSReloc_Refine.proj2w (TableP4.pmigrate_from H mm hash (Z.to_nat (2 ^ L)) told tnew L newL 0 calls).
+Proof. exact HSReloc_Refine.p4_gen_reloc_eq. Qed.
+Print Assumptions C12_hashset_relocate_loops_generated_limp4.
+
+(* element_found_after_growth for the GENERATED loops: relocating a table that satisfies its invariant into a fresh table *)
+Theorem C12_open2n2_element_found_after_growth_generated_loops :
+  forall hash, (forall k, 0 <= hash k < 2 ^ 64) -> forall L newL, 0 <= L -> L < newL <= 63 ->
+  forall told, TableO2_Proofs.Tinv hash L told ->
+    match HSReloc_Refine.o2_gen_reloc hash L newL told TableO2.empty_table with
+    | Ok (_, tnew) => TableO2_Proofs.Tinv hash newL tnew /\ (forall k, TableO2_Proofs.Present L told k -> TableO2_Proofs.Found hash newL tnew k)
+    | Exn => True
+    | _ => False
+    end.
+Proof. exact HSReloc_Refine.o2_gen_reloc_found. Qed.
+Print Assumptions C12_open2n2_element_found_after_growth_generated_loops.
+
+Theorem C12_limp4_element_found_after_growth_generated_loops :
+  forall H mm hash, 4 <= H <= 8 -> 1 <= mm <= 4 -> (forall k, 0 <= hash k < 2 ^ 64) -> forall L newL, 0 <= L -> L < newL <= 63 ->
+  forall told, TableP4_Proofs.PTinv H hash L told ->
+    match HSReloc_Refine.p4_gen_reloc H mm hash L newL told (TableP4.pempty_table H mm) with
+    | Ok (_, tnew) => TableP4_Proofs.PTinv H hash newL tnew /\ (forall k, TableP4_Proofs.PPresent L told k -> TableP4_Proofs.PFound hash newL tnew k)
+    | Exn => True
+    | _ => False
+    end.
+Proof. exact HSReloc_Refine.p4_gen_reloc_found. Qed.
+Print Assumptions C12_limp4_element_found_after_growth_generated_loops.
+
+(* after ANY chain of growths carried out by the generated loops, every key of the original table is returned by the modelled Find
+   (which the generated pvFind equals: the C12_hashset_bucket_probing_generated theorems) *)
+Theorem C12_open2n2_find_after_any_chain_of_growths_generated_loops :
+  forall hash, (forall k, 0 <= hash k < 2 ^ 64) ->
+  forall Ls L t, 0 <= L <= 63 -> Chains.increasing L Ls -> TableO2_Proofs.Tinv hash L t ->
+    match HSReloc_Refine.o2_gen_grow_chain hash t L Ls with
+    | Ok (t', L') => TableO2_Proofs.Tinv hash L' t' /\
+        (forall k, TableO2_Proofs.Present L t k -> exists r, TableO2.find t' L' k (hash k) = Ok r /\ TableO2_Find.hit hash L' t' k r)
+    | Exn => True
+    | _ => False
+    end.
+Proof. exact HSReloc_Refine.o2_gen_grow_chain_find. Qed.
+Print Assumptions C12_open2n2_find_after_any_chain_of_growths_generated_loops.
+
+Theorem C12_limp4_find_after_any_chain_of_growths_generated_loops :
+  forall H mm hash, 4 <= H <= 8 -> 1 <= mm <= 4 -> (forall k, 0 <= hash k < 2 ^ 64) ->
+  forall Ls L t, 0 <= L <= 63 -> Chains.increasing L Ls -> TableP4_Proofs.PTinv H hash L t ->
+    match HSReloc_Refine.p4_gen_grow_chain H mm hash t L Ls with
+    | Ok (t', L') => TableP4_Proofs.PTinv H hash L' t' /\
+        (forall k, TableP4_Proofs.PPresent L t k -> exists r, TableP4.pfind t' L' k (hash k) = Ok r /\ TableP4_Find.phit hash L' t' k r)
+    | Exn => True
+    | _ => False
+    end.
+Proof. exact HSReloc_Refine.p4_gen_grow_chain_find. Qed.
+Print Assumptions C12_limp4_find_after_any_chain_of_growths_generated_loops.
+
+(* ---- review-fix round: establishing theorems for the hypotheses of the table-level theorems, and witnesses ---- *)
+Theorem C12_one_empty_table_invariant : forall hash L, TableOne_Proofs.OTinv hash L TableOne.oempty_table.
+Proof. exact TableOne_Proofs.oempty_inv. Qed.
+Print Assumptions C12_one_empty_table_invariant.
+
+(* Good / gens_ok / gens_inv (Open2N2): a table filled by HashSet::Insert-without-growth of DISTINCT keys, next to a fresh empty
+   table, satisfies all of them (Uniq = no key stored twice holds for the empty table and is preserved by inserting an absent key) *)
+Theorem C12_open2n2_table_hypotheses_established :
+  forall hash, (forall k, 0 <= hash k < 2 ^ 64) -> forall L newL keys, 0 <= L -> L < newL <= 63 -> NoDup keys ->
+    match TableO2.insert_all hash TableO2.empty_table L keys with
+    | Ok t => TableO2_Proofs.Good hash L newL t TableO2.empty_table /\ TableO2_Proofs.gens_ok hash newL [(t, L)] /\ GensFind.gens_inv hash [(t, L)]
+    | Exn => True
+    | _ => False
+    end.
+Proof. exact Establish.o2_hypotheses_established. Qed.
+Print Assumptions C12_open2n2_table_hypotheses_established.
+
+Theorem C12_limp4_table_hypotheses_established :
+  forall H mm hash, 4 <= H <= 8 -> 1 <= mm <= 4 -> (forall k, 0 <= hash k < 2 ^ 64) -> forall L newL keys, 0 <= L -> L < newL <= 63 -> NoDup keys ->
+    match TableP4.pinsert_all H hash (TableP4.pempty_table H mm) L keys with
+    | Ok t => TableP4_Proofs.PGood H hash L newL t (TableP4.pempty_table H mm) /\ TableP4_Proofs.pgens_ok H hash newL [(t, L)] /\ GensFind.pgens_inv H hash [(t, L)]
+    | Exn => True
+    | _ => False
+    end.
+Proof. exact Establish.p4_hypotheses_established. Qed.
+Print Assumptions C12_limp4_table_hypotheses_established.
+
+Theorem C12_one_table_hypotheses_established :
+  forall hash L newL keys, 0 <= L <= 63 -> NoDup keys ->
+    match TableOne.oinsert_all hash TableOne.oempty_table L keys with
+    | Ok t => TableOne_Proofs.OGood hash L newL t TableOne.oempty_table
+    | Exn => True
+    | _ => False
+    end.
+Proof. exact Establish.one_hypotheses_established. Qed.
+Print Assumptions C12_one_table_hypotheses_established.
+
+(* concrete witnesses (computed): 8 keys inserted, then migrated into a larger fresh table WITHOUT the "table full" exception, for
+   LimP4 and One (Open2N2: C12_open2n2_table_nonvacuous) and for chains of growths through the GENERATED loops.  There is NO
+   general theorem that the Exn escape of the table-level theorems cannot be taken when the capacity suffices. *)
+Theorem C12_limp4_table_nonvacuous :
+  match TableP4.pinsert_all 4 TableO2_Proofs.demo_hash (TableP4.pempty_table 4 2) 2 [1; 2; 3; 4; 5; 6; 7; 8] with
+  | Ok t => match TableP4.pmigrate 4 2 TableO2_Proofs.demo_hash t 2 5 with Ok _ => true | _ => false end
+  | _ => false
+  end = true.
+Proof. exact Establish.p4_table_nonvacuous. Qed.
+Print Assumptions C12_limp4_table_nonvacuous.
+
+Theorem C12_one_table_nonvacuous :
+  match TableOne.oinsert_all TableO2_Proofs.demo_hash TableOne.oempty_table 4 [1; 2; 3; 4; 5; 6; 7; 8] with
+  | Ok t => match TableOne.omigrate TableO2_Proofs.demo_hash t 4 6 with Ok _ => true | _ => false end
+  | _ => false
+  end = true.
+Proof. exact Establish.one_table_nonvacuous. Qed.
+Print Assumptions C12_one_table_nonvacuous.
+
+Theorem C12_generated_growth_loops_nonvacuous :
+  match TableO2.insert_all TableO2_Proofs.demo_hash TableO2.empty_table 2 [1; 2; 3; 4; 5; 6; 7; 8],
+        TableP4.pinsert_all 4 TableO2_Proofs.demo_hash (TableP4.pempty_table 4 2) 2 [1; 2; 3; 4; 5; 6; 7; 8] with
+  | Ok t, Ok pt => match HSReloc_Refine.o2_gen_grow_chain TableO2_Proofs.demo_hash t 2 [3; 5; 9],
+                         HSReloc_Refine.p4_gen_grow_chain 4 2 TableO2_Proofs.demo_hash pt 2 [4; 7] with
+                   | Ok _, Ok _ => true
+                   | _, _ => false
+                   end
+  | _, _ => false
+  end = true.
+Proof. exact Establish.gen_loops_nonvacuous. Qed.
+Print Assumptions C12_generated_growth_loops_nonvacuous.
